@@ -124,8 +124,67 @@ class LinAlgError(ValueError):
     pass
 
 
-class linalg:
+class _LinalgMeta(type):
+    def __getattr__(cls, name):
+        raise ShimGap('numpy.linalg.%s is not implemented by vf.libstubs' % name)
+
+
+class linalg(metaclass=_LinalgMeta):
     LinAlgError = LinAlgError
+
+    @staticmethod
+    def lstsq(A, b, rcond=None):
+        """Contract: the minimum-norm least-squares solution x = pinv(A) b (exact, via a
+        full-rank factorisation of the concrete rational matrix), residual sum, rank."""
+        A = nplite.asarray(A)
+        b = nplite.asarray(b)
+        if A.ndim != 2 or b.ndim != 1 or A.shape[0] != b.shape[0]:
+            raise LinAlgError('lstsq: incompatible dimensions')
+        if any(isinstance(a, Sym) for a in A._d):
+            raise ShimGap('lstsq with a symbolic matrix')
+        m, n = A.shape
+        M = [[Fraction(A._d[i * n + j]) for j in range(n)] for i in range(m)]
+        # reduced row echelon form -> pivot columns; A = B C with B = pivot columns of A, C = nonzero rows of rref
+        R = [row[:] for row in M]
+        piv = []
+        r = 0
+        for c in range(n):
+            p = next((i for i in range(r, m) if R[i][c] != 0), None)
+            if p is None:
+                continue
+            R[r], R[p] = R[p], R[r]
+            pv = R[r][c]
+            R[r] = [e / pv for e in R[r]]
+            for i in range(m):
+                if i != r and R[i][c] != 0:
+                    f = R[i][c]
+                    R[i] = [e - f * er for e, er in zip(R[i], R[r])]
+            piv.append(c)
+            r += 1
+            if r == m:
+                break
+        rank = len(piv)
+        if rank == 0:
+            x = [Fraction(0)] * n
+        else:
+            B = [[M[i][c] for c in piv] for i in range(m)]          # m x r
+            C = [R[i] for i in range(rank)]                          # r x n
+
+            def mat(Ml):
+                return nplite.ndarray([e for row in Ml for e in row], (len(Ml), len(Ml[0])), nplite.float64)
+            Bt = [list(col) for col in zip(*B)]
+            Ct = [list(col) for col in zip(*C)]
+
+            def mul(X, Y):
+                return [[sum((X[i][k] * Y[k][j] for k in range(len(Y))), Fraction(0)) for j in range(len(Y[0]))] for i in range(len(X))]
+            BtB = mul(Bt, B)
+            CCt = mul(C, Ct)
+            Btb = [sum((Bt[i][k] * b._d[k] for k in range(m) if Bt[i][k] != 0), Fraction(0)) for i in range(rank)]
+            y = _solve_concrete_matrix(mat(BtB), nplite.ndarray(Btb, (rank,), nplite.float64), rank)._d
+            z = _solve_concrete_matrix(mat(CCt), nplite.ndarray(list(y), (rank,), nplite.float64), rank)._d
+            x = [sum((Ct[j][k] * z[k] for k in range(rank) if Ct[j][k] != 0), Fraction(0)) for j in range(n)]
+        res = nplite.zeros((0,))
+        return (nplite.ndarray(x, (n,), nplite.float64), res, rank, nplite.zeros((min(m, n),)))
 
     @staticmethod
     def solve(A, b):
